@@ -10,6 +10,7 @@ import (
 	"io"
 	"math/rand"
 	"runtime"
+	"strconv"
 	"strings"
 
 	netty "github.com/go-netty/go-netty"
@@ -514,8 +515,69 @@ func pickLen(rng *rand.Rand, s codecSpec) int {
 	}
 }
 
+// runExactReader: utils.ExactReader call by call (C08): <P> xr <n> <fin> <chunks> <buffer sizes> <data:err>...
+func runExactReader(prop string, rng *rand.Rand, k int) {
+	emit("#case %s-xr-%d", strings.ToLower(prop), k)
+	stream := randPayload(rng, rng.Intn(40))
+	chunks := chunkings(rng, stream, rng.Intn(4))
+	if rng.Intn(4) == 0 { // zero-length reads in between
+		var cs [][]byte
+		for _, c := range chunks {
+			if rng.Intn(3) == 0 {
+				cs = append(cs, []byte{})
+			}
+			cs = append(cs, c)
+		}
+		chunks = cs
+	}
+	var n int64
+	switch rng.Intn(6) {
+	case 0:
+		n = int64(len(stream))
+	case 1:
+		n = int64(len(stream)) + int64(1+rng.Intn(5)) // the stream ends inside the frame
+	case 2:
+		n = int64(rng.Intn(3)) - 1 // -1, 0, 1
+	default:
+		n = int64(rng.Intn(len(stream) + 2))
+	}
+	finS, fin := finName(rng.Intn(3))
+	cp := make([][]byte, len(chunks))
+	for i := range chunks {
+		cp[i] = append([]byte(nil), chunks[i]...)
+	}
+	r := utils.ExactReader(&chunkReader{chunks: cp, fin: fin}, n)
+	var sizes, calls []string
+	for i := 0; i < 60; i++ {
+		sz := []int{0, 1, 1, 2, 3, 5, 8, 64}[rng.Intn(8)]
+		sizes = append(sizes, strconv.Itoa(sz))
+		buf := make([]byte, sz)
+		got, err := r.Read(buf)
+		cls := "nil"
+		switch {
+		case err == io.EOF:
+			cls = "eof"
+		case err == io.ErrUnexpectedEOF:
+			cls = "ueof"
+		case err != nil:
+			cls = "other"
+		}
+		calls = append(calls, hexOrDash(buf[:got])+":"+cls)
+		if err != nil {
+			break
+		}
+	}
+	emit("%s xr %d %s %s %s %s", prop, n, finS, chunksHex(chunks), strings.Join(sizes, ","), strings.Join(calls, " "))
+}
+
 func runC04(prop string, seed int64, count int) {
 	rng := rand.New(rand.NewSource(seed))
+	if prop == "C08" {
+		xrng := rand.New(rand.NewSource(seed + 99))
+		for k := 0; k < count; k++ {
+			runExactReader(prop, xrng, k)
+		}
+	}
 	for cs := 0; cs < count; cs++ {
 		s := genSpec(rng)
 		in, out, ok := s.build()
